@@ -180,26 +180,22 @@ theorem reference_iff_pointer (t : Ty) :
     (isReferenceType t = some true ↔ lowerType t = .ok (some .pointer)) ∧
     (isReferenceType t = some false →
       lowerType t = .ok none ∨ (∃ s, lowerType t = .ok (some (.int s))) ∨ (∃ s, lowerType t = .ok (some (.float s)))) := by
-  have hz : sizeZero t = true → isReferenceType t = some false := by
+  have hz : noIrValue t = true → isReferenceType t = some false := by
     intro h
-    unfold sizeZero at h
-    unfold isReferenceType
+    simp only [noIrValue, sizeZero, Bool.and_eq_true, bne_iff_ne, ne_eq] at h
+    rw [isReferenceType_eq]
     cases hl : layoutOf t with
     | none => simp [hl] at h
     | some l =>
       simp [hl] at h
-      simp [h]
+      simp [h.1, h.2]
   have hscalar : ∀ k s a, t = .leaf k s a → (k = .int ∨ k = .float) → isReferenceType t ≠ some true := by
     intro k s a ht hk
     subst ht
-    unfold isReferenceType
-    cases hl : layoutOf (.leaf k s a) with
-    | none => simp
-    | some l =>
-      simp only []
-      split
-      · simp
-      · rcases hk with rfl | rfl <;> simp
+    rw [isReferenceType_eq]
+    rcases hk with rfl | rfl <;>
+      (by_cases h0 : s = 0 <;>
+        simp [Ty.kind, layoutOf, Layout.new, Layout.get_size, h0, Gen.LayoutDecide.is_reference_type_arms])
   rcases lowerType_cases t with ⟨h0, h⟩ | ⟨h0, ⟨s, a, ht, h⟩ | ⟨s, a, ht, h⟩ | ⟨hr, h⟩ | ⟨hr, h⟩⟩
   · have := hz h0
     constructor
